@@ -1,4 +1,5 @@
 import Hive.Model.KVHeap
+import Hive.Proofs.KVOrder
 /-!
 # Ownership invariant of the store with memory (C04, private-copy clause)
 
@@ -336,6 +337,33 @@ theorem foldr_deref_sets (mem : Mem) (realm : Bytes) (sets : RMap) (m0 : AList) 
   induction sets with
   | nil => rfl
   | cons e t ih => simp only [List.foldr_cons, deref, List.map_cons] at ih ⊢; rw [ih]
+
+theorem rget_of_key_mem {k : Bytes} {m : RMap} (h : k ∈ m.map (·.1)) : ∃ e ∈ m, rget k m = some e.2 := by
+  induction m with
+  | nil => simp at h
+  | cons x t ih =>
+    by_cases hx : x.1 = k
+    · exact ⟨x, by simp, by simp [rget, List.find?_cons, hx]⟩
+    · have hne : (x.1 == k) = false := by simpa using hx
+      simp only [List.map_cons, List.mem_cons] at h
+      rcases h with h | h
+      · exact absurd h.symm hx
+      · obtain ⟨e, he, hr⟩ := ih h
+        exact ⟨e, List.mem_cons_of_mem _ he, by simpa [rget, List.find?_cons, hne] using hr⟩
+
+/-- Every value slice an iteration hands to its consumer is one of the copies it made: the caller knows it afterwards. -/
+theorem iter_refs_known (s : HSt) (realm p : Bytes) (d : Dir) (l : List (Bytes × Ref))
+    (hl : (hstep s (.iter realm p d)).2 = .refs l) : ∀ x ∈ l, x.2 ∈ (hstep s (.iter realm p d)).1.known := by
+  simp only [hstep] at hl ⊢
+  injection hl with hl
+  subst hl
+  intro x hx
+  simp only [List.mem_map] at hx
+  obtain ⟨k, hk, rfl⟩ := hx
+  have hk' := (mem_sortBy (lt := dirLt d) k _).mp hk
+  obtain ⟨e, he, hr⟩ := rget_of_key_mem hk'
+  simp only [hr, Option.getD_some, List.mem_append, List.mem_map]
+  exact Or.inl ⟨e, he, rfl⟩
 
 theorem hinv_run (s : HSt) (h : HInv s) (ops : List HOp) : HInv (hrun s ops) := by
   induction ops generalizing s with
